@@ -47,6 +47,8 @@ def container(t):
     return t
 
 
+_GEN_CMP = {"eq": "Eq", "ne": "Ne", "lt": "Lt", "le": "Le", "gt": "Gt", "ge": "Ge"}
+_NEG_CMP = {"Eq": "Ne", "Ne": "Eq", "Lt": "Ge", "Ge": "Lt", "Le": "Gt", "Gt": "Le"}
 SUM_HOOK = [None]      # optional: callee path -> (i, j) when `ok(callee(args))` is the non-overflowing sum args[i-1] + args[j-1]
 
 
@@ -78,6 +80,8 @@ def _norm(t):
             x = x[2] if x[0] == 'cast' else x[1]
         if x[0] == 'bin' and x[1].endswith("WithOverflow"):
             return norm(('bin', x[1][:-len("WithOverflow")], x[2], x[3]))
+    if k == 'call' and not t[2] and re.search(r"AddressValue::(zero|one)$", canon(t[1])):
+        return ('const', 0 if canon(t[1]).endswith("zero") else 1)      # the additive / multiplicative unit of the address value type
     if (k == 'call' and t[2] and canon(t[1]).split("::")[-1] == "len" and _LEN_OWNER.search(canon(t[1]))) or (k == 'un' and t[1] == 'PtrMetadata'):
         c = container(t[2][0] if k == 'call' else t[2])
         if c[0] == 'agg' and c[1] == 'repeat':
@@ -148,6 +152,19 @@ class Bounds:
     def __init__(self, facts, prim_sizes=None):
         self.facts = [r for r in facts if r[0] == 'cmp']
         self.nfacts = [(r[1], norm(r[2]), norm(r[3])) for r in self.facts]
+        # comparisons of a GENERIC numeric type are calls (`PartialEq::eq(a, b)` decided true / false), not MIR comparisons
+        for r in facts:
+            if r[0] == 'bool' and isinstance(r[1], tuple):
+                t = deep_strip(r[1])
+                while t[0] in ('ref', 'deref'):
+                    t = deep_strip(t[1])
+                if t[0] == 'call' and len(t[2]) == 2:
+                    nm = canon(t[1]).split("::")[-1]
+                    op = _GEN_CMP.get(nm)
+                    if op and re.search(r"cmp::Partial(Eq|Ord)::", canon(t[1])):
+                        if not r[2]:
+                            op = _NEG_CMP[op]
+                        self.nfacts.append((op, norm(t[2][0]), norm(t[2][1])))
         self.memo = {}
 
     # ------------------------------------------------------------------ constants
